@@ -91,33 +91,89 @@ theorem steps_cases : ∀ (steps : List (Event × Option Err)),
 
 /-! ## run = walk over the expected steps -/
 
-/-- the steps of one per-field loop, `k` steps already taken -/
-def loopSteps (ph : Phase) (fail : Nat → Nat → Option Err) : Nat → List Nat → List (Event × Option Err)
+/-- the calls of a step list with the failure attached to each, `k` calls already made -/
+def pairsOf (fail : Nat → Event → Option Err) : Nat → List Step → List (Event × Option Err)
   | _, [] => []
-  | k, f :: fs => (⟨ph, f, []⟩, fail k f) :: loopSteps ph fail (k + 1) fs
+  | k, s :: ss =>
+    match s.ev with
+    | none => pairsOf fail k ss
+    | some e => (e, fail k e) :: pairsOf fail (k + 1) ss
 
-theorem fieldLoop_walk (ph : Phase) (fail : Nat → Nat → Option Err) :
-    ∀ (fs : List Nat) (k : Nat) (tr : Trace) (rest : List (Event × Option Err)),
-    walk (loopSteps ph fail k fs ++ rest) tr =
-      match fieldLoop ph fail k fs tr with
-      | (tr', some e) => (tr', .err (toProgramError e))
-      | (tr', none) => walk rest tr'
-  | [], k, tr, rest => by simp [loopSteps, fieldLoop]
-  | f :: fs, k, tr, rest => by
-    simp only [loopSteps, List.cons_append, fieldLoop]
-    cases hf : fail k f with
+theorem stepLoop_walk (fail : Nat → Event → Option Err) :
+    ∀ (ss : List Step) (k : Nat) (tr : Trace) (c : Ctx) (rest : List (Event × Option Err)),
+    walk (pairsOf fail k ss ++ rest) tr =
+      match stepLoop fail k ss tr c with
+      | (tr', _, some e) => (tr', .err (toProgramError e))
+      | (tr', _, none) => walk rest tr'
+  | [], k, tr, c, rest => by simp [pairsOf, stepLoop]
+  | s :: ss, k, tr, c, rest => by
+    cases hs : s.ev with
     | none =>
-      simp only [walk]
-      exact fieldLoop_walk ph fail fs (k + 1) _ rest
-    | some e => simp [walk]
+      simp only [pairsOf, stepLoop, hs]
+      exact stepLoop_walk fail ss k tr _ rest
+    | some e =>
+      simp only [pairsOf, stepLoop, hs, List.cons_append]
+      cases hf : fail k e with
+      | none =>
+        simp only [walk]
+        exact stepLoop_walk fail ss (k + 1) _ _ rest
+      | some er => simp [walk]
+
+theorem applyEffs_append (c : Ctx) (a b : List Eff) :
+    applyEffs c (a ++ b) = applyEffs (applyEffs c a) b := by
+  simp [applyEffs, List.foldl_append]
+
+/-- A loop that ran to its end has applied every cache update, in order. -/
+theorem stepLoop_ctx (fail : Nat → Event → Option Err) :
+    ∀ (ss : List Step) (k : Nat) (tr : Trace) (c : Ctx),
+    (stepLoop fail k ss tr c).2.2 = none →
+    (stepLoop fail k ss tr c).2.1 = applyEffs c (ss.flatMap (·.effs))
+  | [], k, tr, c, _ => by simp [stepLoop, applyEffs]
+  | s :: ss, k, tr, c, h => by
+    cases hs : s.ev with
+    | none =>
+      simp only [stepLoop, hs] at h ⊢
+      rw [stepLoop_ctx fail ss k tr _ h, List.flatMap_cons, applyEffs_append]
+    | some e =>
+      simp only [stepLoop, hs] at h ⊢
+      cases hf : fail k e with
+      | some er => simp [hf] at h
+      | none =>
+        simp only [hf] at h ⊢
+        rw [stepLoop_ctx fail ss (k + 1) _ _ h, List.flatMap_cons, applyEffs_append]
+
+theorem pairsOf_events (fail : Nat → Event → Option Err) :
+    ∀ (ss : List Step) (k : Nat), (pairsOf fail k ss).map (·.1) = events ss
+  | [], _ => by simp [pairsOf, events]
+  | s :: ss, k => by
+    cases hs : s.ev with
+    | none =>
+      have ih := pairsOf_events fail ss k
+      simp only [events] at ih
+      simp [pairsOf, events, hs, ih]
+    | some e =>
+      have ih := pairsOf_events fail ss (k + 1)
+      simp only [events] at ih
+      simp [pairsOf, events, hs, ih]
+
+theorem pairsOf_failures (fail : Nat → Event → Option Err) :
+    ∀ (ss : List Step) (k : Nat), (pairsOf fail k ss).map (·.2) = failsOf fail k ss
+  | [], _ => by simp [pairsOf, failsOf]
+  | s :: ss, k => by
+    cases hs : s.ev with
+    | none => simp [pairsOf, failsOf, hs, pairsOf_failures fail ss k]
+    | some e => simp [pairsOf, failsOf, hs, pairsOf_failures fail ss (k + 1)]
+
+theorem decodeSteps_effs (t : ASet) : t.decodeSteps.flatMap (·.effs) = [] := by
+  simp [ASet.decodeSteps, evStep, List.flatMap_eq_nil_iff]
 
 /-- All steps of an instruction with the failure attached to each. -/
 def steps (ix : Ix) (plan : FaultPlan) (data : List Nat) (naccts : Nat) : List (Event × Option Err) :=
-  (⟨.args, ix.id, []⟩, argsFail ix plan data)
-  :: (loopSteps .decode (decodeFail plan naccts) 0 (names ix.fields)
-  ++ (loopSteps .validate (fun _ f => planned plan .validate f) 0 (order ix.fields)
-  ++ ((⟨.process, ix.id, data.take ix.alen⟩, planned plan .process ix.id)
-  :: (loopSteps .cleanup (fun _ f => planned plan .cleanup f) 0 (names ix.fields) ++ []))))
+  (⟨.args, ix.id, [], none, none⟩, argsFail ix plan data)
+  :: (pairsOf (decodeFail plan naccts) 0 ix.set.decodeSteps
+  ++ (pairsOf (plainFail plan) 0 ix.set.validateSteps
+  ++ ((processEvent ix data, planned plan .process ix.id)
+  :: (pairsOf (plainFail plan) 0 ix.set.cleanupSteps ++ []))))
 
 theorem run_eq_walk (ix : Ix) (plan : FaultPlan) (data : List Nat) (naccts : Nat) :
     run ix plan data naccts = walk (steps ix plan data naccts) [] := by
@@ -126,100 +182,62 @@ theorem run_eq_walk (ix : Ix) (plan : FaultPlan) (data : List Nat) (naccts : Nat
   | some e => simp [walk]
   | none =>
     simp only [walk, List.nil_append]
-    rw [fieldLoop_walk]
-    cases hd : fieldLoop .decode (decodeFail plan naccts) 0 (names ix.fields)
-        [⟨.args, ix.id, []⟩] with
+    rw [stepLoop_walk _ _ _ _ {}]
+    have hdc := stepLoop_ctx (decodeFail plan naccts) ix.set.decodeSteps 0
+      [⟨.args, ix.id, [], none, none⟩] {}
+    cases hd : stepLoop (decodeFail plan naccts) 0 ix.set.decodeSteps
+        [⟨.args, ix.id, [], none, none⟩] {} with
     | mk tr1 r1 =>
-      cases r1 with
+      obtain ⟨c1, o1⟩ := r1
+      cases o1 with
       | some e => simp
       | none =>
+        rw [hd] at hdc
+        have hc1 : c1 = {} := by
+          have := hdc rfl
+          simpa [decodeSteps_effs, applyEffs] using this
+        subst hc1
         simp only
-        rw [fieldLoop_walk]
-        cases hv : fieldLoop .validate (fun _ f => planned plan .validate f) 0 (order ix.fields) tr1 with
+        rw [stepLoop_walk _ _ _ _ {}]
+        have hvc := stepLoop_ctx (plainFail plan) ix.set.validateSteps 0 tr1 {}
+        cases hv : stepLoop (plainFail plan) 0 ix.set.validateSteps tr1 {} with
         | mk tr2 r2 =>
-          cases r2 with
+          obtain ⟨c2, o2⟩ := r2
+          cases o2 with
           | some e => simp
           | none =>
+            rw [hv] at hvc
+            have hc2 : c2 = ix.set.cache := by
+              have := hvc rfl
+              simpa [ASet.cache] using this
+            subst hc2
             simp only
             cases hp : planned plan .process ix.id with
-            | some e => simp [walk]
+            | some e => simp [walk, processEvent]
             | none =>
               simp only [walk]
-              rw [fieldLoop_walk]
-              cases hc : fieldLoop .cleanup (fun _ f => planned plan .cleanup f) 0 (names ix.fields)
-                  (tr2 ++ [⟨.process, ix.id, data.take ix.alen⟩]) with
+              rw [stepLoop_walk _ _ _ _ ix.set.cache]
+              simp only [processEvent]
+              cases hc : stepLoop (plainFail plan) 0 ix.set.cleanupSteps
+                  (tr2 ++ [⟨.process, ix.id, data.take ix.alen, ix.set.cache.funder,
+                    ix.set.cache.recipient⟩]) ix.set.cache with
               | mk tr3 r3 =>
-                cases r3 with
+                obtain ⟨c3, o3⟩ := r3
+                cases o3 with
                 | some e => simp
                 | none => simp [walk]
 
-theorem loopSteps_events (ph : Phase) (fail : Nat → Nat → Option Err) :
-    ∀ (fs : List Nat) (k : Nat), (loopSteps ph fail k fs).map (·.1) = fs.map (fun f => ⟨ph, f, []⟩)
-  | [], _ => by simp [loopSteps]
-  | f :: fs, k => by simp [loopSteps, loopSteps_events ph fail fs (k + 1)]
-
-theorem loopSteps_failures (ph : Phase) (fail : Nat → Nat → Option Err) :
-    ∀ (fs : List Nat) (k : Nat),
-    (loopSteps ph fail k fs).map (·.2) = (fs.zipIdx k).map (fun (f, i) => fail i f)
-  | [], _ => by simp [loopSteps]
-  | f :: fs, k => by simp [loopSteps, loopSteps_failures ph fail fs (k + 1)]
-
 theorem steps_events (ix : Ix) (plan : FaultPlan) (data : List Nat) (naccts : Nat) :
     (steps ix plan data naccts).map (·.1) = expected ix data := by
-  simp [steps, expected, loopSteps_events]
-
-theorem zipIdx_map_const {α β : Type} (g : α → β) : ∀ (l : List α) (k : Nat),
-    (l.zipIdx k).map (fun (f, _) => g f) = l.map g
-  | [], _ => by simp
-  | x :: xs, k => by simp [zipIdx_map_const g xs (k + 1)]
+  simp [steps, expected, pairsOf_events]
 
 theorem steps_failures (ix : Ix) (plan : FaultPlan) (data : List Nat) (naccts : Nat) :
     (steps ix plan data naccts).map (·.2) = failures ix plan data naccts := by
-  simp only [steps, failures, List.map_cons, List.map_append, loopSteps_failures,
-    List.append_nil]
-  rw [zipIdx_map_const (fun f => planned plan .validate f),
-    zipIdx_map_const (fun f => planned plan .cleanup f)]
-  simp
+  simp [steps, failures, pairsOf_failures]
 
 theorem steps_eq_zip (ix : Ix) (plan : FaultPlan) (data : List Nat) (naccts : Nat) :
-    steps ix plan data naccts = (expected ix data).zip (failures ix plan data naccts) := by
-  exact List.zip_of_prod (steps_events ix plan data naccts) (steps_failures ix plan data naccts)
-
-/-! ## each step at most once -/
-
-theorem nodup_map_event (ph : Phase) {l : List Nat} (h : l.Nodup) :
-    (l.map (fun f => (⟨ph, f, []⟩ : Event))).Nodup := by
-  unfold List.Nodup at h ⊢
-  rw [List.pairwise_map]
-  exact h.imp (fun hne heq => hne (by injection heq))
-
-theorem order_nodup {fs : List Field} (h : (names fs).Nodup) : (order fs).Nodup :=
-  (orderLoop_perm fs.length fs (Nat.le_refl _)).nodup_iff.mpr h
-
-theorem expected_nodup (ix : Ix) (data : List Nat) (h : (names ix.fields).Nodup) :
-    (expected ix data).Nodup := by
-  unfold expected
-  have h1 := nodup_map_event .decode h
-  have h2 := nodup_map_event .validate (order_nodup h)
-  have h3 := nodup_map_event .cleanup h
-  simp only [List.nodup_append, List.nodup_cons, List.mem_append, List.mem_map, List.mem_cons,
-    List.not_mem_nil, List.nodup_nil, not_false_eq_true, true_and, and_true, or_false]
-  refine ⟨⟨⟨⟨h1, ?_⟩, h2, ?_⟩, ?_⟩, h3, ?_⟩
-  · intro a ha b hb
-    obtain ⟨f, _, rfl⟩ := hb
-    subst ha; intro h; injection h with hp; cases hp
-  · rintro a (ha | ⟨f, _, rfl⟩) b ⟨g, _, rfl⟩
-    · subst ha; intro h; injection h with hp; cases hp
-    · intro h; injection h with hp; cases hp
-  · rintro a ((ha | ⟨f, _, rfl⟩) | ⟨f, _, rfl⟩) b rfl
-    · subst ha; intro h; injection h with hp; cases hp
-    · intro h; injection h with hp; cases hp
-    · intro h; injection h with hp; cases hp
-  · rintro a (((ha | ⟨f, _, rfl⟩) | ⟨f, _, rfl⟩) | ha) b ⟨g, _, rfl⟩
-    · subst ha; intro h; injection h with hp; cases hp
-    · intro h; injection h with hp; cases hp
-    · intro h; injection h with hp; cases hp
-    · subst ha; intro h; injection h with hp; cases hp
+    steps ix plan data naccts = (expected ix data).zip (failures ix plan data naccts) :=
+  List.zip_of_prod (steps_events ix plan data naccts) (steps_failures ix plan data naccts)
 
 end Account.C11
 
@@ -294,27 +312,22 @@ theorem walk_first (steps : List (Event × Option Err)) (i : Nat) (er : Err)
     subst h4
     rw [← h3, ← hres]
 
-/-! ## a per-field loop only appends events of its own phase -/
+end Account.C11
 
-theorem fieldLoop_phase (ph : Phase) (fail : Nat → Nat → Option Err) :
-    ∀ (fs : List Nat) (k : Nat) (tr : Trace) (e : Event),
-    e ∈ (fieldLoop ph fail k fs tr).1 → e ∈ tr ∨ e.phase = ph
-  | [], k, tr, e, h => by simp [fieldLoop] at h; exact Or.inl h
-  | f :: fs, k, tr, e, h => by
-    simp only [fieldLoop] at h
-    cases hf : fail k f with
-    | some er =>
-      simp [hf] at h
-      rcases h with h | rfl
-      · exact Or.inl h
-      · exact Or.inr rfl
-    | none =>
-      simp only [hf] at h
-      rcases fieldLoop_phase ph fail fs (k + 1) _ e h with h | h
-      · simp at h
-        rcases h with h | rfl
-        · exact Or.inl h
-        · exact Or.inr rfl
-      · exact Or.inr h
+namespace Account.C11
+
+/-- If some step is due to fail, nothing beyond it is ever run. -/
+theorem walk_prefix_of_failing (A : List (Event × Option Err)) (e : Event) (er : Err)
+    (B : List (Event × Option Err)) :
+    (walk (A ++ (e, some er) :: B) []).1 <+: A.map (·.1) ++ [e] := by
+  rcases steps_cases A with hall | ⟨pre, e', er', post, hsplit, hpre⟩
+  · rw [walk_first_failure A e er B [] hall]
+    simp
+  · subst hsplit
+    have : (pre ++ (e', some er') :: post) ++ (e, some er) :: B
+        = pre ++ (e', some er') :: (post ++ (e, some er) :: B) := by simp
+    rw [this, walk_first_failure pre e' er' _ [] hpre]
+    refine ⟨post.map (·.1) ++ [e], ?_⟩
+    simp
 
 end Account.C11
